@@ -13,6 +13,7 @@ export GOFLAGS=-mod=mod GOPROXY=off GOSUMDB=off GOTOOLCHAIN=local
 if [ "${RUN_TESTS:-0}" = 1 ]; then
   if ! (cd "$scratch/repo" && go1.26 test -vet=off -count=1 ./... >/dev/null 2>&1); then echo "MUTANT-FAILS-OWN-TESTS $patch"; fi
 fi
+mkdir -p "$scratch/vroot"; cp /verif/known_findings.json "$scratch/vroot/"
 out=$(VERIF_REPO="$scratch/repo" VERIF_NO_EVIDENCE=1 VERIF_ROOT="$scratch/vroot" /verif/run.sh "$id" "$tier" 2>&1); rc=$?
 mkdir -p "$scratch/vroot"
 if [ $rc -eq 1 ] && echo "$out" | grep -q "^VIOLATION property=$id"; then
